@@ -63,9 +63,12 @@ def classify(prop):
         return "contract.post"
     if desc.startswith("KF:"):
         return "known-finding"
+    if desc == "assertion" and not (prop.get("sourceLocation") or {}).get("line"):
+        # CBMC 6.11's non-DFCC loop-contract pass emits its base / step / decreases checks without a comment or a line
+        return "loop.contract"
     if "unwinding assertion" in d or ".unwind." in name or "recursion unwinding" in d:
         return "unwind"
-    if "loop invariant" in d and "base" in d:
+    if "loop invariant" in d and ("base" in d or "before entry" in d):
         return "loop.base"
     if "loop invariant" in d and ("step" in d or "preserved" in d):
         return "loop.step"
@@ -475,6 +478,10 @@ def run_cover(ob, scratch, tier, res):
     if rc != 0:
         return None, "goto-cc (cover mode) failed: " + (err or out)[-600:]
     binf = "c.gb"
+    if ob["route"] == "H":
+        rc, out, err = sh(["goto-instrument", "--drop-unused-functions", "c.gb", "c1.gb"], wd, 120, 4, log)
+        if rc == 0:
+            binf = "c1.gb"
     if ob["route"] == "N":
         rc, out, err = sh(["goto-instrument", "--drop-unused-functions", "c.gb", "c1.gb"], wd, 120, 4, log)
         rc2, out, err = sh(["goto-instrument", "--apply-loop-contracts", "c1.gb", "c2.gb"], wd, 300, 8, log)
